@@ -7,6 +7,7 @@ pub mod c03;
 pub mod c04;
 pub mod c05;
 pub mod c06;
+pub mod c07;
 pub mod c08;
 pub mod c09;
 pub mod labels;
@@ -30,6 +31,7 @@ pub fn run(ctx: &Ctx) -> Option<Report> {
         "C04" => Some(c04::run(ctx)),
         "C05" => Some(c05::run(ctx)),
         "C06" => Some(c06::run(ctx)),
+        "C07" => Some(c07::run(ctx)),
         "C09" => Some(c09::run(ctx)),
         "C10" => Some(c10::run(ctx)),
         "C11" => Some(c11::run(ctx)),
@@ -52,6 +54,7 @@ pub fn replay(id: &str, doc: &Value) -> i32 {
         "C14" => c14::replay(case),
         _ if !case["e2e"].is_null() => crate::e2e::replay(case),
         "C06" => c06::replay(case),
+        "C07" => c07::replay(case),
         "C09" => c09::replay(case),
         "C10" => c10::replay(case),
         "C16" => c16::replay(case),
@@ -64,6 +67,7 @@ pub fn replay(id: &str, doc: &Value) -> i32 {
 
 pub fn internal(args: &[String]) -> i32 {
     match args[0].as_str() {
+        "--c07-tracer" => c07::tracer_main(args),
         "--c08-child" => c08::child_main(args),
         "--c18-threads" => c18::threads_child(args),
         "--c18-first" => {
